@@ -83,7 +83,7 @@ def _custom_ser(kind):
 
 
 def gen_schema(rng):
-    n_obj = rng.randint(1, 3)
+    n_obj = rng.choice([1, 2, 2, 3, 3])
     n_iface = rng.choice([0, 1, 1, 2])
     n_union = rng.choice([0, 1, 1])
     n_enum = rng.choice([0, 1, 1, 2])
@@ -156,12 +156,14 @@ def gen_schema(rng):
         iface_fields[i] = pick_fields(rng.randint(1, 2))
     impls = {i: [] for i in ifaces}
     for o in objs:
-        mine = [i for i in ifaces if rng.random() < 0.6]
+        mine = [i for i in ifaces if rng.random() < 0.5]
         for i in mine:
             impls[i].append(o)
     for i in ifaces:                     # every interface has an implementation
         if not impls[i]:
             impls[i].append(rng.choice(objs))
+        if len(impls[i]) == len(objs) and len(objs) > 1 and rng.random() < 0.7:
+            impls[i].remove(rng.choice(impls[i]))          # ... and usually a non-implementing object
     obj_ifaces = {o: [i for i in ifaces if o in impls[i]] for o in objs}
     for i in ifaces:
         types.append({"kind": "interface", "name": i, "fields": iface_fields[i],
@@ -178,7 +180,16 @@ def gen_schema(rng):
         rng.shuffle(fs)
         types.append({"kind": "object", "name": o, "fields": fs, "interfaces": obj_ifaces[o]})
     for u in unions:
-        members = sorted(rng.sample(objs, rng.randint(1, len(objs))), key=lambda x: rng.random())
+        members = rng.sample(objs, rng.randint(1, len(objs)))
+        if ifaces and rng.random() < 0.7:
+            # a union that crosses an interface: one member implements it, another does not
+            i = rng.choice(ifaces)
+            non = [o for o in objs if o not in impls[i]]
+            if non:
+                for extra in (rng.choice(impls[i]), rng.choice(non)):
+                    if extra not in members:
+                        members.append(extra)
+        members = sorted(members, key=lambda x: rng.random())
         types.append({"kind": "union", "name": u, "types": members,
                       "resolve_key": rng.choice([None, None, "kind"])})
     for e in enums:
@@ -520,8 +531,14 @@ class OpGen:
                     self.features.add("inline-untyped")
                 else:
                     tc = rng.choice(conds)
+                    other_abstract = [c for c in conds if c != parent and self.idx[c]["kind"] != "object"]
+                    crossing = t["kind"] != "object" and other_abstract and rng.random() < 0.6
+                    if crossing:
+                        # abstract condition under an abstract parent: applies for some runtime types only
+                        tc = rng.choice(other_abstract)
+                        self.features.add("inline-abstract-crossing")
                     body = self.selection_set(tc, depth + 1)
-                    if rng.random() < 0.3:
+                    if rng.random() < (0.6 if crossing else 0.3):
                         body = "__typename " + body       # defined on every runtime type: shows whether the condition applied
                     parts.append("... on %s%s { %s }" % (tc, self.directives(), body))
                     self.features.add("inline-typed")
@@ -724,7 +741,7 @@ class World:
             poss = possible_objects(self.desc, tname)
             runtime = rng.choice(poss)
             named = runtime
-            if self.allow_crash and rng.random() < 0.06:
+            if self.allow_crash and rng.random() < 0.12:
                 others = [x["name"] for x in self.desc["types"] if x["name"] not in poss]
                 named = rng.choice(others + ["NoSuchType", 5, None])
             if named is not None:
